@@ -694,10 +694,9 @@ fn sequential(s: &mut Sink) {
                             s.violation(&format!("{}/{class}/compile-err", eng.name()), e, rp);
                             continue;
                         }
-                        let out = if eng == Eng::Interp {
-                            vmx.exec_out(eng, buf.raw(), crate::vm::empty_raw())
-                        } else {
-                            // compiled code: isolate
+                        let out = {
+                            // isolate every run: compiled code can fault, and an interpreter that
+                            // wrongly admits a misaligned atomic aborts in builds with debug assertions
                             let end = in_child(20, || match vmx.exec(eng, buf.raw(), crate::vm::empty_raw()) {
                                 Ok(v) => format!("O{v}").into_bytes(),
                                 Err(e) => format!("E{e}").into_bytes(),
